@@ -192,8 +192,73 @@ impl Response {
         }
     }
     pub fn parse_bytes(bytes: &[u8]) -> Result<Self, ::serde_bencode::Error> {
+        check_bencode_nesting_depth(bytes)?;
+
         ::serde_bencode::from_bytes(bytes)
     }
+}
+
+/// Maximum nesting depth of bencode lists and dictionaries accepted when
+/// parsing responses. Valid responses are at most three levels deep.
+const MAX_BENCODE_NESTING_DEPTH: usize = 32;
+
+/// Return error if lists/dictionaries are nested deeper than any valid
+/// response can be
+///
+/// Deserialization is recursive, so deeply nested input would otherwise
+/// overflow the stack and abort the whole process.
+fn check_bencode_nesting_depth(bytes: &[u8]) -> Result<(), ::serde_bencode::Error> {
+    let mut depth = 0usize;
+    let mut i = 0usize;
+
+    while let Some(byte) = bytes.get(i) {
+        match byte {
+            b'l' | b'd' => {
+                depth += 1;
+
+                if depth > MAX_BENCODE_NESTING_DEPTH {
+                    return Err(::serde_bencode::Error::Custom(
+                        "bencode nesting too deep".into(),
+                    ));
+                }
+
+                i += 1;
+            }
+            b'e' => {
+                depth = depth.saturating_sub(1);
+
+                i += 1;
+            }
+            b'i' => {
+                // Skip integer, including terminating 'e'
+                while let Some(byte) = bytes.get(i) {
+                    i += 1;
+
+                    if *byte == b'e' {
+                        break;
+                    }
+                }
+            }
+            b'0'..=b'9' => {
+                // Skip byte string: length prefix, ':' and contents
+                let mut len = 0usize;
+
+                while let Some(digit @ b'0'..=b'9') = bytes.get(i) {
+                    len = len
+                        .saturating_mul(10)
+                        .saturating_add((digit - b'0') as usize);
+
+                    i += 1;
+                }
+
+                i = i.saturating_add(1).saturating_add(len);
+            }
+            // Invalid data, let the actual parser report it
+            _ => break,
+        }
+    }
+
+    Ok(())
 }
 
 #[cfg(test)]
